@@ -271,7 +271,9 @@ def spec(tier, seed):
     maxp = 3 if tier == "quick" else 4
     maxa = 3 if tier == "quick" else 4
     n = 0
-    for sp in lambda_lists(maxp):
+    for li, sp in enumerate(lambda_lists(maxp)):
+        if tier == "quick" and len(sp[0]) == maxp and li % 5:
+            continue  # quick: every 5th of the largest lambda lists (all of them in thorough)
         ll, nd = hy_lambda_list(sp)
         names = bound_tuple(sp)
         hytext = "(fn %s #(%s))" % (ll, " ".join(names))
@@ -283,7 +285,7 @@ def spec(tier, seed):
         L = ["P_%s = _sk.compile_prog(%r)" % (fn, hytext), "X_%s = compile(%r, '<pydef>', 'eval')" % (fn, pytext),
              "def %s(%s) -> bool:" % (fn, ", ".join(params)), '    """',
              "    pre: len(pos) <= %d" % (len(sp[0]) + 1),
-             "    pre: len(kw) <= %d and all(k in %r for k in kw)" % (min(len(pool), 3), tuple(pool)),
+             "    pre: len(kw) <= %d and all(k in %r for k in kw)" % (min(len(pool), 2 if tier == "quick" else 3), tuple(pool)),
              "    post: _", '    """',
              "    return def_side(P_%s, X_%s, [%s], pos, kw)" % (fn, fn, ", ".join("dflt%d" % i for i in range(nd)))]
         obs.append(Ob(fn, "\n".join(L), sample="def side: %s  ==  %s  called with symbolic (*pos, **kw)" % (hytext, pytext),
@@ -298,7 +300,11 @@ def spec(tier, seed):
             L[2] = "def %s(%s) -> bool:" % (fn, ", ".join(params))
             L[-1] = "    return def_side(P_%s, X_%s, [%s], pos, kw)" % (fn, fn, ", ".join("dflt%d" % i for i in range(nd)))
             obs.append(Ob(fn, "\n".join(L), sample="def side (defn): %s  ==  %s" % (hytext2, pytext), group="defn/%d" % len(sp[0]), weight=len(sp[0]) + 1))
-    for ks in call_shapes(maxa):
+    for ci, ks in enumerate(call_shapes(maxa)):
+        if tier == "quick" and len(ks) == maxa and ci % 4:
+            continue
+        if ks.count("dstar") >= 3:
+            continue  # three symbolic dicts: does not finish within the budget
         hytext, pytext, params, vals, pre = render_call(ks)
         fn = "h%d" % n
         n += 1
@@ -343,8 +349,8 @@ def spec(tier, seed):
             "hy.core.result_macros.compile_lambda_list / compile_arguments_set / compile_function_lambda / compile_function_def / compile_function_node",
             "hy.compiler.HyASTCompiler._compile_collect (keyword arguments mingled among positionals, #*, #**), compile_expression",
         ],
-        "bounds": "def side: all lambda lists with <= %d parameters over {positional-only, normal, keyword-only} x {default, none} with /, #* rest, bare *, #** kws "
-                  "(defaults symbolic ints), each called with a symbolic positional list (len <= params+1) and a symbolic keyword dict (<= 3 keys from the parameter names "
+        "bounds": "(quick tier: every 5th of the largest lambda lists and every 4th of the longest call shapes; thorough: all) def side: all lambda lists with <= %d parameters over {positional-only, normal, keyword-only} x {default, none} with /, #* rest, bare *, #** kws "
+                  "(defaults symbolic ints), each called with a symbolic positional list (len <= params+1) and a symbolic keyword dict (<= 2 keys in quick, <= 3 in thorough, from the parameter names "
                   "plus an outsider); fn and (sampled) defn. call side: all call shapes with <= %d arguments over {positional, :k1, :k2, #* list(len<=2), #** dict(keys in k1..k3)} "
                   "in every order, values symbolic. body side: 11 body shapes for the implicit-return and docstring rules." % (maxp, maxa),
         "outside": "more than %d parameters / %d arguments (property text: 6); annotations, decorators, type parameters; async generators' return rule (not runnable here)" % (maxp, maxa),
